@@ -168,7 +168,18 @@ func NewGraph(f *ssa.Function, nr *NoRet) *Graph {
 			}
 		}
 		if g.Cut[b.Index] < 0 {
-			for _, s := range b.Succs {
+			succs := b.Succs
+			// a branch on a compile-time constant has one feasible successor
+			if ifi, ok := b.Instrs[len(b.Instrs)-1].(*ssa.If); ok && len(succs) == 2 {
+				if v, ok := foldBool(ifi.Cond); ok {
+					if v {
+						succs = succs[:1]
+					} else {
+						succs = succs[1:]
+					}
+				}
+			}
+			for _, s := range succs {
 				g.Succs[b.Index] = append(g.Succs[b.Index], s.Index)
 			}
 		}
@@ -735,4 +746,183 @@ func DerivedFrom(v ssa.Value, src func(ssa.Value) bool, through func(*ssa.Call) 
 		return false
 	}
 	return rec(v)
+}
+
+// ReturnValues resolves the operands of a Return. In functions with defers,
+// go/ssa spills results to locals and reloads them after `rundefers`; the
+// value stored last before the reload in the same block is returned instead.
+// (A deferred closure that assigns a named result would be missed; callers
+// that care must check DeferredWrites.)
+func ReturnValues(r *ssa.Return) []ssa.Value {
+	out := make([]ssa.Value, len(r.Results))
+	blk := r.Block()
+	for k, v := range r.Results {
+		out[k] = v
+		u, ok := v.(*ssa.UnOp)
+		if !ok || u.Op != token.MUL || u.Block() != blk {
+			continue
+		}
+		al, ok := u.X.(*ssa.Alloc)
+		if !ok {
+			continue
+		}
+		// last store to al in this block before the load
+		var last ssa.Value
+		for _, i := range blk.Instrs {
+			if i == ssa.Instruction(u) {
+				break
+			}
+			if st, ok := i.(*ssa.Store); ok && st.Addr == ssa.Value(al) {
+				last = st.Val
+			}
+		}
+		if last != nil {
+			out[k] = last
+		}
+	}
+	return out
+}
+
+// Origin looks through conversions and through loads of a local that is
+// stored exactly once (go/ssa spills a parameter whose address is taken):
+// the value it names is the stored value.
+func Origin(v ssa.Value) ssa.Value {
+	for depth := 0; depth < 8; depth++ {
+		switch x := v.(type) {
+		case *ssa.ChangeType:
+			v = x.X
+			continue
+		case *ssa.UnOp:
+			if x.Op != token.MUL {
+				return v
+			}
+			al, ok := x.X.(*ssa.Alloc)
+			if !ok {
+				return v
+			}
+			var stored ssa.Value
+			n := 0
+			for _, r := range Referrers(al) {
+				switch y := r.(type) {
+				case *ssa.Store:
+					if y.Addr == ssa.Value(al) {
+						n++
+						stored = y.Val
+					}
+				case *ssa.UnOp, *ssa.Slice, *ssa.DebugRef, *ssa.IndexAddr:
+					// reads / sub-slices for reading
+				case *ssa.MakeClosure:
+					n += 2 // captured: may be written elsewhere
+				default:
+					n += 2
+				}
+			}
+			if n != 1 {
+				return v
+			}
+			v = stored
+			continue
+		}
+		return v
+	}
+	return v
+}
+
+// PossibleInts evaluates an integer value to the finite set of constants it
+// may take (through phis and constant arithmetic); ok=false if unbounded.
+func PossibleInts(v ssa.Value) (vals []int64, ok bool) {
+	seen := map[ssa.Value]bool{}
+	var rec func(v ssa.Value) ([]int64, bool)
+	rec = func(v ssa.Value) ([]int64, bool) {
+		if k, ok := ConstInt(v); ok {
+			return []int64{k}, true
+		}
+		if seen[v] {
+			return nil, true
+		}
+		seen[v] = true
+		switch x := v.(type) {
+		case *ssa.Phi:
+			var out []int64
+			for _, e := range x.Edges {
+				r, ok := rec(e)
+				if !ok {
+					return nil, false
+				}
+				out = append(out, r...)
+			}
+			return out, true
+		case *ssa.Convert:
+			return rec(x.X)
+		case *ssa.BinOp:
+			a, ok1 := rec(x.X)
+			b, ok2 := rec(x.Y)
+			if !ok1 || !ok2 {
+				return nil, false
+			}
+			var out []int64
+			for _, p := range a {
+				for _, q := range b {
+					switch x.Op {
+					case token.OR:
+						out = append(out, p|q)
+					case token.AND:
+						out = append(out, p&q)
+					case token.AND_NOT:
+						out = append(out, p&^q)
+					case token.ADD:
+						out = append(out, p+q)
+					case token.SUB:
+						out = append(out, p-q)
+					case token.XOR:
+						out = append(out, p^q)
+					default:
+						return nil, false
+					}
+				}
+			}
+			return out, true
+		}
+		return nil, false
+	}
+	vals, ok = rec(v)
+	if ok && len(vals) == 0 {
+		ok = false
+	}
+	return
+}
+
+// foldBool evaluates a condition built from constants only.
+func foldBool(v ssa.Value) (bool, bool) {
+	if k, ok := ConstBool(v); ok {
+		return k, true
+	}
+	switch x := v.(type) {
+	case *ssa.UnOp:
+		if x.Op == token.NOT {
+			k, ok := foldBool(x.X)
+			return !k, ok
+		}
+	case *ssa.BinOp:
+		a, ok1 := ConstInt(x.X)
+		b, ok2 := ConstInt(x.Y)
+		if !ok1 || !ok2 {
+			return false, false
+		}
+		switch x.Op {
+		case token.LSS:
+			return a < b, true
+		case token.LEQ:
+			return a <= b, true
+		case token.GTR:
+			return a > b, true
+		case token.GEQ:
+			return a >= b, true
+		case token.EQL:
+			return a == b, true
+		case token.NEQ:
+			return a != b, true
+		}
+	}
+	return false, false
 }
